@@ -208,7 +208,11 @@ pub fn use_is_loading_global() -> bool {
     if let Some(global) = try_use_context::<AllTasksRemaining>() {
         global
             .all_tasks_remaining
-            .with(|vec| vec.iter().any(|signal| signal.get() > 0))
+            // Counters of suspense scopes that have been disposed are skipped.
+            .with(|vec| {
+                vec.iter()
+                    .any(|signal| signal.is_alive() && signal.get() > 0)
+            })
     } else {
         false
     }
